@@ -52,6 +52,38 @@ pub(crate) fn empty_type_space() -> TypeSpace {
     }
 }
 
+/// Stub for `util::sanitize` (reaches `syn::parse_str`, which crashes the Kani compiler as
+/// soon as it is statically reachable from a harness). Over-approximation: an arbitrary
+/// string of at most two ASCII letters. Used only by harnesses whose postcondition does
+/// not speak about the sanitised name; a harness in which the value matters cannot replay
+/// natively (the real `sanitize` runs there), and its violation line then ends
+/// `no-failing-input-found`.
+pub(crate) fn stub_sanitize(_input: &str, _case: crate::util::Case) -> String {
+    let mut s = String::new();
+    let n: u8 = kani::any();
+    if n & 1 != 0 {
+        let c: u8 = kani::any();
+        kani::assume(c.is_ascii_alphabetic());
+        s.push(c as char);
+    }
+    if n & 2 != 0 {
+        let c: u8 = kani::any();
+        kani::assume(c.is_ascii_alphabetic());
+        s.push(c as char);
+    }
+    s
+}
+
+/// Stub for `regress::Regex::new` (the regex compiler is far outside CBMC's reach and is
+/// statically reachable from `convert_string` / `StringValidator::new`). Used only by
+/// harnesses that pass no pattern; it fails the harness if it is ever reached.
+pub(crate) fn stub_regex_new(_pattern: &str) -> std::result::Result<regress::Regex, regress::Error> {
+    kani::assert(false, "[TOOL] regress::Regex::new reached: unsupported in this harness");
+    Err(regress::Error {
+        text: String::new(),
+    })
+}
+
 /// A finite f64 (JSON numbers are finite; serde_json cannot produce NaN/inf).
 pub(crate) fn any_finite() -> f64 {
     let x: f64 = kani::any();
